@@ -33,8 +33,6 @@ In(P, r) == {p \in P : r[1] <= p /\ p <= r[2]}
 RECURSIVE SumCounts(_, _)
 SumCounts(R, j) == IF j = 0 THEN 0 ELSE R[j][3] + SumCounts(R, j - 1)
 
-StartOpen(cfg) == Unspecified(cfg.eff.s)
-
 \* ---- one scanned day ----------------------------------------------------------------------------------------------
 ScanDay(cfg, P, d, dr) ==
     LET date == dr.date
